@@ -147,6 +147,59 @@ T = {
  ),
 }
 
+# ---- second round (one more change per property, the first round's idea excluded in the prompt)
+T.update({
+ "C01b": dict(
+  worktree="/tmp/seed4-C01",
+  summary="udp PeerMap::announce: when the removed entry has the same peer id as the request the new entry is built as `Peer { is_seeder, ..removed_peer }`, silently keeping the old valid_until",
+  needs="the same (IP, port, peer id) announcing twice with a later deadline the second time, and a cleaning pass between the two deadlines: the peer is dropped although its latest announce has not expired",
+  demo="demo/crates/udp/tests/seeded_demo.rs",
+  caught_by=[caught("C01", "hist", "stats-totals")],
+ ),
+ "C02b": dict(
+  worktree="/tmp/seed4-C02",
+  summary="udp PeerMap::announce (heap representation): a `started` announce no longer removes the announcer's old entry before the reply is built, so a stored peer announcing `started` again can be handed its own address",
+  needs="heap representation (>= 3 peers), the requester already stored under the same ip:port, event `started`, and - when others > limit - random offsets covering its slot",
+  demo="demo/crates/udp/tests/seeded_demo.rs",
+  caught_by=[],
+ ),
+ "C03b": dict(
+  worktree="/tmp/seed4-C03",
+  summary="CanonicalSocketAddr::new uses `ip.to_ipv4()` (guarded by !is_loopback) instead of the ::ffff:a.b.c.d pattern: the deprecated IPv4-compatible block ::a.b.c.d is folded into IPv4 as well",
+  needs="a source address in ::/96 other than ::1 and :: (UDP datagram source, HTTP TCP peer or reverse-proxy header address); every other address behaves as before",
+  demo="demo/crates/udp/tests/seeded_demo.rs and demo/crates/http/tests/seeded_demo.rs",
+  caught_by=[],
+ ),
+ "C04b": dict(
+  worktree="/tmp/seed4-C04",
+  summary="udp TorrentMapShards::announce: get-or-create of the peer map is a plain read() lookup followed, on a miss, by write().insert(new Arc) - two announces of one unknown torrent can both miss and the second insert replaces the first thread's map",
+  needs="two threads announcing the same info hash that is not (or no longer) in the map, interleaved read-miss, read-miss, insert, insert: an acknowledged announce is lost; sequential use and known torrents unaffected",
+  demo="demo/crates/udp/tests/seeded_demo.rs (4 announcers released together per round, scraper, cleaner)",
+  caught_by=[caught("C04", "stress", "not-linearizable", note="the new lock-free gap has no probe point, so the owned-schedule enumeration cannot reach it; the free-running bursts do, and since decision-log row 26 one sound observation decides")],
+ ),
+ "C05b": dict(
+  worktree="/tmp/seed4-C05",
+  summary="ConnectionValidator::connection_id_valid compares in u32: `client_elapsed.checked_add(max_connection_age).is_some_and(..)` - an expiry time that overflows u32 now means 'rejected' instead of 'never expires'",
+  needs="issue time + max_connection_age > u32::MAX: max_connection_age near u32::MAX with an id issued at second >= 1, or an ordinary age with an issue time in the last seconds of the u32 clock",
+  demo="demo.diff (unit tests in crates/udp/src/workers/socket/validator.rs)",
+  caught_by=[caught("C05", "window", "valid-id-rejected")],
+ ),
+ "C06b": dict(
+  worktree="/tmp/seed4-C06",
+  summary="udp handle_request (mio and io_uring): the access-list lookup runs before the connection-id check, so an announce for a refused info hash gets the 'Info hash not allowed' error reply whatever its connection id",
+  needs="access list in deny or allow mode, an announce for a refused hash, and a connection id that is not valid for the source (forged, zero, stale, issued to another address)",
+  demo="demo/crates/udp/tests/seeded_demo.rs",
+  caught_by=[caught("C06", "datagrams", "reply-without-valid-id-or-to-malformed", note="missed at first (no tracker of the C06 pool ran with an access list; C11's end-to-end round only uses valid ids). Caught after trackers with deny / allow list files covering every case's torrents were added to the pool")],
+ ),
+ "C07b": dict(
+  worktree="/tmp/seed4-C07",
+  summary="http LargePeerMap::clean_and_get_num_peers: the retain closure no longer decrements the cached num_seeders when an expired seeder is dropped",
+  needs="heap representation (>= 5 peers), a cleaning pass that removes a seeder while another peer of the torrent survives, then any announce or scrape of it",
+  demo="demo.diff (unit tests in crates/http/src/workers/swarm/storage.rs)",
+  caught_by=[],
+ ),
+})
+
 def main():
     results = open(os.path.join(V, "mutants/RESULTS.txt")).read().splitlines()
     for pid, t in T.items():
@@ -158,9 +211,11 @@ def main():
             print("skip", pid, "(not verified yet)")
             continue
         res = open(vr).read().strip()
-        lines = [l for l in results if re.search(r"\b%s(\+C\d\d)*-seeded\d" % pid, l) or re.search(r"C\d\d\+%s-seeded\d" % pid, l) or ("seeded-%s" % pid.lower()) in l]
+        prop = pid[:3]
+        n = "2" if pid.endswith("b") else "1"
+        lines = [l for l in results if re.search(r"\b%s(\+C\d\d)*-seeded%s" % (prop, n), l) or re.search(r"C\d\d\+%s-seeded%s" % (prop, n), l) or (n == "1" and ("seeded-%s" % prop.lower()) in l)]
         meta = {
-            "property": pid,
+            "property": prop,
             "source": "written by an independent sub-agent given only the property text and pointers into the repository (worktree %s)" % t["worktree"],
             "summary": t["summary"],
             "needs": t["needs"],
